@@ -345,7 +345,10 @@ func (fx *FuncCtx) frameEnv(st *State, f *Frame) *SpecEnv {
 		return fx.specEnv(st, nil)
 	}
 	// inlined frame: parameters of the inlined function
-	env := &SpecEnv{fx: fx, st: st, old: fx.entry, vars: map[string]Value{}, info: f.ct.Info, ct: f.ct}
+	env := &SpecEnv{fx: fx, st: st, old: f.entry, vars: map[string]Value{}, info: f.ct.Info, ct: f.ct}
+	if env.old == nil {
+		env.old = fx.entry
+	}
 	for _, p := range f.fn.Params {
 		env.vars[p.Name()] = f.vals[p]
 	}
